@@ -84,3 +84,14 @@ func vclockbound(d uint64) {}
 // vreps: how often a run-to-run comparison is repeated natively (Go randomises map
 // iteration per range statement); the engine explores iteration orders itself and uses 1.
 func vreps() int { return 48 }
+
+// vthreads runs the closures as concurrent threads. Engine: thread-modular lockset
+// analysis (every pair of conflicting accesses to shared memory with disjoint locksets
+// is a violation of the check l). Native: real goroutines (replayed under -race).
+func vthreads(l string, f1, f2 func()) {
+	done := make(chan bool, 2)
+	go func() { f1(); done <- true }()
+	go func() { f2(); done <- true }()
+	<-done
+	<-done
+}
